@@ -874,3 +874,83 @@ _base_scn4 = scenarios
 
 def scenarios():
     return _base_scn4() + [ecdh_decrypt('Curve25519'), ecdh_decrypt('NIST')]
+
+
+def message_encrypt(supplied, already):
+    """PGPMessage.encrypt (passphrase): iterated+salted S2K with the requested hash and cipher, session key drawn iff none is supplied,
+    the whole message in one integrity-protected container (or, for an already encrypted message, one more session-key packet)"""
+    label = 'C03/PGPMessage.encrypt[session key %s%s]' % ('supplied' if supplied else 'generated', ', message already encrypted' if already else '')
+    SK4, S2K = 'pgpy.packet.packets.SKESessionKeyV4', 'pgpy.packet.fields.String2Key'
+
+    def gen(repo):
+        r = scn.Run(repo, MSG, 'encrypt', label)
+        ex, st = r.ex, r.st
+        scn.cipher_facts(r)
+        me = E.VObj(MSG, 'plain')
+        r.hook(MSG, 'is_encrypted', lambda ex, st, o, a: [(st, E.VBool(already if o.ref == 'plain' else False))])
+        PLAIN = z3.Const('MESSAGE_OCTETS', B)
+        r.hook(MSG, '__bytes__', scn.method_hook(lambda ex, st, o, a: [(st, E.VBytes(PLAIN))]))
+        r.hook(SK4, '__call__', lambda ex, st, cls, a: [(st, E.VObj(SK4, 'skesk'))])
+        r.hook(SEIPD, '__call__', lambda ex, st, cls, a: [(st, E.VObj(SEIPD, 'seipd'))])
+        r.hook(MSG, '__call__', lambda ex, st, cls, a: [(st, E.VObj(MSG, 'out'))])
+        r.set('skesk', 's2k', E.VObj(S2K, 's2k'))
+        TUNED = z3.Int('tuned_count_of_the_hash')
+        st.pc += [TUNED >= 0, TUNED <= 255]          # contract of HashAlgorithm.tuned_count: a coded count octet
+        r.hook('pgpy.constants.HashAlgorithm', 'tuned_count', scn.const(E.VInt(TUNED)))
+
+        def esk(ex, st, o, a):
+            st.ghost['encrypt_sk_args'] = a
+            st.ghost['s2k_at_encrypt_sk'] = {f: st.heap.get(('s2k', f)) for f in ('usage', '_specifier', '_halg', '_encalg', '_count', 'count')}
+            return [(st, E.VNone())]
+        r.hook(SK4, 'encrypt_sk', scn.method_hook(esk))
+
+        def senc(ex, st, o, a):
+            st.ghost['seipd_args'] = a
+            return [(st, E.VNone())]
+        r.hook(SEIPD, 'encrypt', scn.method_hook(senc))
+
+        def m_or(ex, st, o, a):
+            st.ghost['added'] = st.ghost.get('added', ()) + ((o.ref, a[0]),)
+            return [(st, o)]
+        r.hook(MSG, '__or__', scn.method_hook(m_or))
+        # the coded-count setter is proved in C09; here: what is asked of it
+        def set_count(ex, st, o, a):
+            st.heap[('s2k', 'count')] = a[0]
+            return [(st, E.VNone())]
+        PW, SK = E.VStr(z=z3.Const('PASSPHRASE', B)), z3.Const('SUPPLIED_SESSION_KEY', B)
+        kws = {'cipher': E.VInt(9, enum='pgpy.constants.SymmetricKeyAlgorithm'), 'hash': E.VInt(10, enum='pgpy.constants.HashAlgorithm')}
+        for pi, (s, v) in enumerate(r.call(me, [PW] + ([E.VBytes(SK)] if supplied else []), kws)):
+            if isinstance(v, E.Raise):
+                r.oblige(s, 'safety(%s)/p%d' % (v.exc.split(':')[0], pi), z3.BoolVal(False), v.where)
+                continue
+            ea, sa, draws = s.ghost.get('encrypt_sk_args'), s.ghost.get('seipd_args'), s.ghost.get('rand', ())
+            r.oblige(s, 'one-passphrase-session-key-packet/p%d' % pi, z3.BoolVal(ea is not None and ea[0] is PW))
+            if ea is None:
+                continue
+            s2 = s.ghost.get('s2k_at_encrypt_sk', {})
+            g = lambda f: ex.as_int(s2[f]) if isinstance(s2.get(f), E.VInt) else z3.IntVal(-1)
+            r.oblige(s, 's2k:usage-255,iterated+salted(3),requested-hash-and-cipher,coded-count-of-that-hash/p%d' % pi,
+                     z3.And(g('usage') == 255, g('_specifier') == 3, g('_halg') == 10, g('_encalg') == 9, g('_count') == TUNED))
+            if supplied:
+                r.oblige(s, 'uses-the-supplied-session-key-and-draws-none/p%d' % pi, z3.And(z3.BoolVal(len(draws) == 0), ex.seq(ea[1], s) == SK))
+            else:
+                r.oblige(s, 'session-key-is-one-fresh-draw-of-the-cipher-key-size/p%d' % pi,
+                         z3.And(z3.BoolVal(len(draws) == 1), z3.And(draws[0][0] == 32, ex.seq(ea[1], s) == draws[0][1]) if len(draws) == 1 else z3.BoolVal(False)))
+            added = s.ghost.get('added', ())
+            if already:
+                r.oblige(s, 'already-encrypted:no-second-container;session-key-packet-then-the-message-as-it-is/p%d' % pi,
+                         z3.BoolVal(sa is None and [x[1].ref for x in added if isinstance(x[1], E.VObj)] == ['skesk', 'plain']))
+            else:
+                r.oblige(s, 'container-encrypts-the-whole-message-under-that-session-key-and-cipher/p%d' % pi,
+                         z3.And(z3.BoolVal(sa is not None), z3.And(ex.seq(sa[0], s) == ex.seq(ea[1], s), ex.as_int(sa[1]) == 9, ex.seq(sa[2], s) == PLAIN) if sa is not None else z3.BoolVal(False)))
+                r.oblige(s, 'result:session-key-packet-then-the-container/p%d' % pi,
+                         z3.BoolVal([x[1].ref for x in added if isinstance(x[1], E.VObj)] == ['skesk', 'seipd'] and isinstance(v, E.VObj) and v.ref == 'out'))
+        return r.result()
+    return Scenario(label, MSG + '.encrypt', gen, props=('C03', 'C13'))
+
+
+_base_scn5 = scenarios
+
+
+def scenarios():
+    return _base_scn5() + [message_encrypt(False, False), message_encrypt(True, False), message_encrypt(False, True)]
